@@ -444,7 +444,7 @@ impl Gen {
         match self.rng.below(6) {
             0 => {
                 if let Some(c) = funds.get_mut(0) {
-                    c.amount += Uint128::new(1);
+                    c.amount = Uint128::new(c.amount.u128().wrapping_add(1));
                 } else {
                     funds.push(coin(1, QUOTES[0]));
                 }
